@@ -84,7 +84,7 @@ def build_facts(profile="dev", repo=None, quiet=True):
     if os.path.exists(out):
         shutil.rmtree(out)
     os.makedirs(out)
-    target = os.path.join(CACHE, "target-" + profile)
+    target = os.path.join(CACHE, "target-" + profile + os.environ.get("EPBD_TARGET_SUFFIX", ""))
     os.makedirs(target, exist_ok=True)
     # cargo replays a cached unit without calling the wrapper: forget the workspace member
     for sub in ("debug", "release"):
@@ -122,7 +122,7 @@ def build_facts(profile="dev", repo=None, quiet=True):
     return out, info
 
 
-def _gc_cache(keep, maxn=12):
+def _gc_cache(keep, maxn=24):
     d = os.path.join(CACHE, "facts")
     try:
         ents = [(os.path.getmtime(os.path.join(d, e)), e) for e in os.listdir(d)]
